@@ -226,3 +226,92 @@ Proof.
     + apply Forall_forall. intros u Hu. now apply Hnb.
     + unfold row_edges. cbn [fst snd]. apply Forall_forall. intros e He. apply in_map_iff in He as [u [<- Hu]]. now apply Hnb.
 Qed.
+
+(* ---------- bipartite kthlist ---------- *)
+Lemma dict_set_new k v : forall d, ~ In k (map fst d) -> gio_dict_set k v d = d ++ [(k, v)].
+Proof.
+  induction d as [|[k' v'] t IH]; intros Hn; [reflexivity|]. cbn [gio_dict_set].
+  destruct (k' =? k) eqn:E.
+  - exfalso. apply Hn. left. cbn. lia.
+  - cbn [app]. f_equal. apply IH. intros H. apply Hn. now right.
+Qed.
+
+Lemma kthb_scan_ok lo L : forall vs hi, L <= hi -> Forall (fun v => lo <= v /\ L < v) vs ->
+  exists hi', gio_kthb_scan vs lo hi = Some hi' /\ L <= hi'.
+Proof.
+  induction vs as [|v t IH]; intros hi Hhi HF; [exists hi; split; [reflexivity|exact Hhi]|].
+  inversion HF as [|x y [H1 H2] Ht]; subst. cbn [gio_kthb_scan]. replace (v <? lo) with false by lia.
+  apply IH; [lia|exact Ht].
+Qed.
+
+(* rows for the left vertices a, a+1, ..., L *)
+Lemma kthb_body_rows size L (f : Z -> list Z) : forall len a hi d,
+  1 <= a -> a + Z.of_nat len = L + 1 -> L <= hi -> L <= size ->
+  (forall u, a <= u <= L -> Forall (fun v => L < v <= size) (f u)) ->
+  (forall k, In k (map fst d) -> k < a) ->
+  gio_kthb_body size (map row_text (map (fun u => (u, f u)) (zseq a len)) ++ [[gt_nl]]) a hi d =
+  GOk (L + 1, d ++ map (fun u => (u, f u)) (zseq a len)).
+Proof.
+  induction len as [|len IH]; intros a hi d Ha Hlen Hhi Hsz Hf Hd.
+  - cbn [zseq seq map app gio_kthb_body]. rewrite (kth_skip_nl size). rewrite app_nil_r. do 2 f_equal. lia.
+  - rewrite zseq_S. cbn [map app gio_kthb_body]. unfold row_text at 1. cbn [fst snd].
+    assert (Hfa : Forall (fun v => L < v <= size) (f a)) by (apply Hf; lia).
+    rewrite kth_line_row; [|lia|eapply Forall_impl; [|exact Hfa]; cbn; intros; lia].
+    replace (a <=? 0) with false by lia. replace (a >? hi) with false by lia.
+    replace (Z.max a (a + 1)) with (a + 1) by lia.
+    destruct (kthb_scan_ok (a + 1) L (f a) hi Hhi) as [hi' [Es Hhi']].
+    { eapply Forall_impl; [|exact Hfa]. cbn. intros; lia. }
+    rewrite Es. rewrite dict_set_new.
+    2:{ intros Hin. apply Hd in Hin. lia. }
+    rewrite IH; [|lia|lia|exact Hhi'|exact Hsz| |].
+    + rewrite <- app_assoc. reflexivity.
+    + intros u Hu. apply Hf. lia.
+    + intros k Hk. rewrite map_app in Hk. apply in_app_or in Hk as [Hk|Hk]; [apply Hd in Hk; lia|].
+      cbn in Hk. destruct Hk as [<-|[]]. lia.
+Qed.
+
+Definition kthb_row (G : iograph) (u : Z) : list Z := map (fun v => v + io_n G) (gio_succs G u).
+
+Lemma write_kthb_shape G : gio_write_kthb G =
+  ([gt_c; gt_sp] ++ io_name G) ++ gt_nl ::
+  ((gt_print_Z (io_n G + io_r G)) ++ gt_nl :: (concat (map (fun u => row_text (u, kthb_row G u)) (gt_range1 (io_n G))) ++ [gt_nl])).
+Proof. unfold gio_write_kthb, row_text, kthb_row. cbn [fst snd]. norm_app. reflexivity. Qed.
+
+Theorem kthb_roundtrip G : gio_wf G -> io_kind G = KBipartite -> kth_name_ok (io_name G) ->
+  exists nm, gio_read_kthb (gio_write_kthb G) = GOk (mkIOG KBipartite nm (io_n G) (io_r G) (io_edges G)).
+Proof.
+  intros (Hn & Hr & _ & Hs & Hf) HK Hname. unfold gio_read_kthb.
+  set (ls := gt_lines (gio_write_kthb G)). exists (gio_kth_name ls).
+  set (L := io_n G) in *. set (R := io_r G) in *.
+  assert (Hls : ls = gt_lines ([gt_c; gt_sp] ++ io_name G ++ [gt_nl]) ++
+                     (gt_print_Z (L + R) ++ [gt_nl]) :: map row_text (map (fun u => (u, kthb_row G u)) (gt_range1 L)) ++ [[gt_nl]]).
+  { unfold ls. rewrite write_kthb_shape, lines_app. f_equal.
+    rewrite lines_line by apply token_no_nl. f_equal. rewrite <- map_map, lines_kth_rows. reflexivity. }
+  rewrite Hls at 1. rewrite kth_header_skips by (assumption || lia). cbn [gio_bind fst snd].
+  rewrite Forall_forall in Hf.
+  assert (Hedge : forall u v, In (u, v) (io_edges G) -> 1 <= u <= L /\ 1 <= v <= R).
+  { intros u v Hin. pose proof (Hf _ Hin) as Hok. unfold edge_stored_ok in Hok. rewrite HK in Hok. exact Hok. }
+  rewrite range1_zseq. rewrite (kthb_body_rows (L + R) L (kthb_row G) (Z.to_nat L) 1 (L + R) []); try lia.
+  2:{ intros u Hu. unfold kthb_row. apply Forall_forall. intros x Hx. apply in_map_iff in Hx as [v [<- Hv]].
+      apply succs_In in Hv. apply Hedge in Hv. fold L. lia. }
+  2:{ intros k []. }
+  cbn [gio_bind fst snd app]. replace (L + 1 - 1) with L by lia. replace (L + R - (L + 1) + 1) with R by lia.
+  rewrite new_ok by lia. cbn [gio_bind].
+  set (G0 := mkIOG KBipartite (gio_kth_name ls) L R []).
+  assert (Hde : gio_dict_edges L (map (fun u => (u, kthb_row G u)) (zseq 1 (Z.to_nat L))) =
+                flat_map (fun u => map (fun v => (u, v)) (gio_succs G u)) (zseq 1 (Z.to_nat L))).
+  { unfold gio_dict_edges. rewrite flat_map_concat_map, map_map, <- flat_map_concat_map.
+    apply flat_map_ext. intros u. cbn [fst snd]. unfold kthb_row. rewrite map_map. apply map_ext. intros v. f_equal. fold L. lia. }
+  rewrite Hde. rewrite add_edges_ok.
+  - unfold G0, gio_with_edges. cbn [io_kind io_name io_n io_r io_edges]. do 2 f_equal.
+    replace (map (edge_norm KBipartite) (flat_map (fun u => map (fun v => (u, v)) (gio_succs G u)) (zseq 1 (Z.to_nat L))))
+      with (flat_map (fun u => map (fun v => (u, v)) (gio_succs G u)) (zseq 1 (Z.to_nat L))) by (symmetry; apply map_id).
+    apply insert_all_rebuild; [exact Hs|]. intros [a b]. rewrite in_flat_map. split.
+    + intros [u [_ Hin]]. apply in_map_iff in Hin as [v [Hx Hv]]. inversion Hx; subst. now apply succs_In.
+    + intros Hin. exists a. split.
+      * apply zseq_In. apply Hedge in Hin. lia.
+      * apply in_map_iff. exists b. split; [reflexivity|]. now apply succs_In.
+  - apply Forall_forall. intros [a b] Hin. apply in_flat_map in Hin as [u [_ Hin]].
+    apply in_map_iff in Hin as [v [Hx Hv]]. inversion Hx; subst. apply succs_In in Hv. apply Hedge in Hv.
+    unfold edge_ok, G0. cbn [io_kind io_n io_r fst snd]. exact Hv.
+Qed.
